@@ -302,16 +302,31 @@ def check_quoted_tokens(repo, rep):
                    loc=mod.loc(fi.node))
 
 
-def class_dict(ci, name):
+def class_dict(ci, name, repo=None):
+    """The constant dict bound to `name` in the class body: a literal, or
+    anything the abstract evaluator can reduce to one (a comprehension over
+    a module-level table, dict(zip(...)), ...)."""
+    env = {}
     for st in ci.node.body:
-        if isinstance(st, ast.Assign) and isinstance(
-                st.targets[0], ast.Name) and st.targets[0].id == name and \
-                isinstance(st.value, ast.Dict):
+        if not (isinstance(st, ast.Assign) and isinstance(
+                st.targets[0], ast.Name)):
+            continue
+        val = None
+        if isinstance(st.value, ast.Dict):
             try:
-                return {k.value: v.value for k, v in zip(
+                val = {k.value: v.value for k, v in zip(
                     st.value.keys, st.value.values)}
             except AttributeError:
-                return None
+                val = None
+        elif repo is not None:
+            try:
+                val = absint.Interp(repo, ci.module).ev(st.value, dict(env))
+            except (absint.Unsupported, absint._Raise):
+                val = None
+        if val is not None:
+            env[st.targets[0].id] = val
+        if st.targets[0].id == name:
+            return val if isinstance(val, dict) else None
     return None
 
 
@@ -339,8 +354,8 @@ def check_keywords(repo, rep):
     rep.ob('R16d', fi.key + '/covers-identifiers', w is None,
            'the keyword token rejects the identifier %r' % w,
            loc=mod.loc(fi.node))
-    kws = class_dict(lx, 'keywords')
-    k2v = class_dict(lx, 'keyword_to_val')
+    kws = class_dict(lx, 'keywords', repo)
+    k2v = class_dict(lx, 'keyword_to_val', repo)
     want = {'true': True, 'false': False, 'null': None}
     ok = kws is not None and k2v is not None and set(kws) == set(want) and \
         all(kws[w] in k2v and k2v[kws[w]] is want[w] for w in want)
